@@ -56,6 +56,14 @@ func runC19(c *Ctx) {
 		direct := c.WhoCalls("(*isaac/database.Center).removeTemp")
 		c.Floor(rt, "uses of removeTemp", len(refs)+len(direct), 2)
 		for _, s := range append(refs, direct...) {
+			if cc := callCommon(s.In); cc != nil {
+				if _, viaParam := cc.Value.(*ssa.Parameter); viaParam {
+					// the function value handed to mergeToPermanent (seen as a call of removeTemp only with
+					// resolved dynamic calls): the lock is the caller's, checked where the value is taken
+					c.Report(s.Fn, "removeTemp invoked as the handed-in function value", c.InstrPos(s.In), c.FuncKey(s.Fn) == "isaac/database.mergeToPermanent", c.FuncKey(s.Fn))
+					continue
+				}
+			}
 			st := c.LockStates(s.Fn, nil)
 			c.Report(s.Fn, "removeTemp used only with the center lock held exclusively", c.InstrPos(s.In), st[s.In]["&db.l"] >= LW, stateStr(st[s.In]))
 		}
